@@ -17,6 +17,11 @@
 //!                the duration of the stamped run (stamps = k >= 1: k-1 ms asleep between
 //!                record_start and record_end) as elapsed() / to_json / the saved file report it
 //!   (transparent, pipe 5: the closure sleeps data[i] ms per element; the same three views)
+//!   busy         in = [driver, init, ops, ms]   thread A is inside a critical section for ms
+//!                milliseconds (to_json / snapshot calling a slow Metric::value) while thread B
+//!                performs ops; free-running, ordered by flags raised inside the section
+//!   attach       in = [steps, mode, data, parts, cfg]   set_metrics / run / take_metrics /
+//!                get_metrics sequences on one pipeline over several marked collectors
 //!
 //! Metric names are integers: k >= 0 is the string "c<k>", -1 is "execution_time_ms".
 //! A metric is [name, kind, val]: kind 0 = CounterMetric(val), kind 1 = some other metric
@@ -35,6 +40,8 @@ use std::any::Any;
 use std::cell::Cell;
 use std::collections::HashMap;
 use std::panic::{AssertUnwindSafe, catch_unwind};
+use std::cell::RefCell;
+use std::sync::atomic::{AtomicBool, Ordering};
 use std::sync::{Arc, Condvar, Mutex};
 use std::time::{Duration, Instant};
 
@@ -101,6 +108,33 @@ impl Metric for OddMetric {
     }
     fn description(&self) -> Option<&str> {
         if self.which % 2 == 0 { Some("") } else { None }
+    }
+    fn as_any(&self) -> &dyn Any {
+        self
+    }
+}
+
+/// a user metric whose FIRST value() call takes `ms` milliseconds; it runs inside the collector's
+/// critical section (to_json / snapshot call value() under the lock) and raises `inside` on
+/// entry and `left` on exit
+struct SlowMetric {
+    name: String,
+    armed: AtomicBool,
+    inside: Arc<AtomicBool>,
+    left: Arc<AtomicBool>,
+    ms: u64,
+}
+impl Metric for SlowMetric {
+    fn name(&self) -> &str {
+        &self.name
+    }
+    fn value(&self) -> Value {
+        if self.armed.swap(false, Ordering::SeqCst) {
+            self.inside.store(true, Ordering::SeqCst);
+            std::thread::sleep(Duration::from_millis(self.ms));
+            self.left.store(true, Ordering::SeqCst);
+        }
+        json!(["tag", 7])
     }
     fn as_any(&self) -> &dyn Any {
         self
@@ -234,6 +268,7 @@ enum Defect {
     FirstWins,    // register keeps an existing metric
     SkipNull,     // to_json leaves out metrics whose value() is JSON null (NaN / inf gauges)
     SubsecMillis, // to_json exports subsec_millis() (the duration modulo one second)
+    TryLockSet,   // set_counter gives up silently when the lock is held
 }
 struct MutInner {
     metrics: HashMap<String, Box<dyn Metric>>,
@@ -291,7 +326,14 @@ impl Coll for Mutant {
     }
     fn set(&self, name: &str, value: u64) {
         yield_point("metrics");
-        let mut inner = self.inner.lock().unwrap();
+        let mut inner = if self.defect == Defect::TryLockSet {
+            match self.inner.try_lock() {
+                Ok(g) => g,
+                Err(_) => return,
+            }
+        } else {
+            self.inner.lock().unwrap()
+        };
         let mut v = value;
         if self.defect == Defect::SetAdds {
             if let Some(c) = inner.metrics.get(name).and_then(|m| Self::count_of(m.as_ref())) {
@@ -367,6 +409,7 @@ fn new_collector() -> Arc<dyn Coll> {
         Some("first_wins") => Arc::new(Mutant::new(Defect::FirstWins)),
         Some("skip_null") => Arc::new(Mutant::new(Defect::SkipNull)),
         Some("subsec_millis") => Arc::new(Mutant::new(Defect::SubsecMillis)),
+        Some("trylock_set") => Arc::new(Mutant::new(Defect::TryLockSet)),
         Some(other) => panic!("unknown C16_MUTANT {other}"),
     }
 }
@@ -722,6 +765,14 @@ fn outcome<T>(r: std::thread::Result<anyhow::Result<Vec<T>>>, conv: &dyn Fn(T) -
 struct RunCfg {
     cfg: i64,
     dir: std::path::PathBuf,
+    /// wall time of every run so far (harness Instants immediately around the run): both stamps
+    /// of a run lie inside its window
+    hi: RefCell<Vec<i64>>,
+}
+impl RunCfg {
+    fn new(cfg: i64, dir: std::path::PathBuf) -> Self {
+        Self { cfg, dir, hi: RefCell::new(Vec::new()) }
+    }
 }
 fn checkpoint_config(rc: &RunCfg) -> Option<CheckpointConfig> {
     let policy = match rc.cfg {
@@ -766,6 +817,23 @@ fn collect_with<T: RFBound>(
         checkpoint_config: checkpoint_config(rc),
         ..Default::default()
     };
+    let t0 = Instant::now();
+    let out = collect_run(&runner, p, c, mode, parts, errmode, rc, conv, sort);
+    rc.hi.borrow_mut().push(ns(t0.elapsed()));
+    out
+}
+#[allow(clippy::too_many_arguments)]
+fn collect_run<T: RFBound>(
+    runner: &Runner,
+    p: &Pipeline,
+    c: &PCollection<T>,
+    mode: i64,
+    parts: usize,
+    errmode: i64,
+    rc: &RunCfg,
+    conv: &dyn Fn(T) -> Vec<i64>,
+    sort: bool,
+) -> Value {
     match errmode {
         // the terminal type does not match: the engine returns Err after running
         1 => {
@@ -968,8 +1036,8 @@ fn run_transparent(input: &Value) -> Value {
     std::fs::create_dir_all(SCRATCH).unwrap();
     let d0 = tempfile::Builder::new().prefix("ckpt-a-").tempdir_in(SCRATCH).unwrap();
     let d1 = tempfile::Builder::new().prefix("ckpt-b-").tempdir_in(SCRATCH).unwrap();
-    let rc0 = RunCfg { cfg, dir: d0.path().join("ck") };
-    let rc1 = RunCfg { cfg, dir: d1.path().join("ck") };
+    let rc0 = RunCfg::new(cfg, d0.path().join("ck"));
+    let rc1 = RunCfg::new(cfg, d1.path().join("ck"));
 
     // without a collector
     let p0 = Pipeline::default();
@@ -998,16 +1066,172 @@ fn run_transparent(input: &Value) -> Value {
         let gone = p1.get_metrics().is_none();
         let positive = el.is_some_and(|d| d > Duration::ZERO);
         // the views of the duration: [all runs took place within `window` ns, elapsed() in ns,
-        // the execution_time_ms entry of to_json]
+        // the execution_time_ms entry of to_json, the LAST run took place within this many ns]
         let json_ms = match (&el, &j) {
             (Some(_), Some(j)) => json!(time_entry(j)),
             _ => Value::Null,
         };
-        let time = json!([window, el.map(ns), json_ms]);
+        let time = json!([window, el.map(ns), json_ms, rc1.hi.borrow().last().copied().unwrap_or(0)]);
         json!(["ok", el.is_some(), keys, got, taken.is_some(), gone, positive, time])
     }))
     .unwrap_or_else(|_| json!(["panic"]));
     json!(["ok", with, without, rest])
+}
+
+// ------------------------------------------------------------------ a long critical section
+
+const SLOW_NAME: i64 = 50;
+
+/// in = [driver, init, ops, ms]: thread A calls to_json (driver 0) / snapshot (driver 1), which
+/// holds the lock for `ms` milliseconds inside SlowMetric::value; thread B waits until A is
+/// inside, then performs `ops`.  out = [ok, final snapshot, B saw A inside before its first call,
+/// A had left the section when B's first call returned]
+fn run_busy(input: &Value) -> Value {
+    // on a heavily loaded machine thread B can be stalled past the end of A's section before it
+    // has made its first call: such an attempt did not overlap and is repeated
+    let mut r = run_busy_once(input);
+    for _ in 0..4 {
+        if r[2] == json!(true) {
+            break;
+        }
+        r = run_busy_once(input);
+    }
+    r
+}
+fn run_busy_once(input: &Value) -> Value {
+    set_yield_hook(None);
+    let driver = input[0].as_i64().unwrap();
+    let ops = parse_ops(&input[2]);
+    let ms = input[3].as_u64().unwrap();
+    let c = init_collector(&input[1]);
+    let inside = Arc::new(AtomicBool::new(false));
+    let left = Arc::new(AtomicBool::new(false));
+    c.reg(Box::new(SlowMetric {
+        name: name_str(SLOW_NAME),
+        armed: AtomicBool::new(true),
+        inside: Arc::clone(&inside),
+        left: Arc::clone(&left),
+        ms,
+    }));
+    let (mut overlapped, mut blocked) = (false, true);
+    std::thread::scope(|s| {
+        let a = Arc::clone(&c);
+        s.spawn(move || {
+            if driver == 0 {
+                let _ = a.json();
+            } else {
+                let _ = a.snap();
+            }
+        });
+        let b = Arc::clone(&c);
+        let (inside, left) = (Arc::clone(&inside), Arc::clone(&left));
+        let (ov, bl) = s
+            .spawn(move || {
+                let deadline = Instant::now() + Duration::from_secs(20);
+                while !inside.load(Ordering::SeqCst) && Instant::now() < deadline {
+                    std::thread::sleep(Duration::from_micros(200));
+                }
+                let ov = inside.load(Ordering::SeqCst) && !left.load(Ordering::SeqCst);
+                let mut bl = true;
+                for (i, op) in ops.iter().enumerate() {
+                    apply(b.as_ref(), op);
+                    if i == 0 {
+                        bl = left.load(Ordering::SeqCst);
+                    }
+                }
+                (ov, bl)
+            })
+            .join()
+            .unwrap();
+        overlapped = ov;
+        blocked = bl;
+    });
+    json!(["ok", canon_snapshot(&c.snap()), overlapped, blocked])
+}
+
+// ------------------------------------------------------------------ the pipeline's metrics slot
+
+const MARK: i64 = 100;
+const GETS: i64 = 200;
+
+/// marker of a collector handed out by the pipeline: k for collector k, -1 for None, -2 unknown
+fn marker_of(m: Option<&MetricsCollector>, n: i64) -> i64 {
+    match m {
+        None => -1,
+        Some(m) => {
+            let snap = m.snapshot();
+            let ks: Vec<i64> = (0..n).filter(|k| snap.contains_key(&name_str(MARK + k))).collect();
+            if ks.len() == 1 { ks[0] } else { -2 }
+        }
+    }
+}
+
+/// in = [steps, mode, data, parts, cfg]; step [0,k] set_metrics(collector k) | [1,e] run with
+/// errmode e | [2] take_metrics | [3] get_metrics (and increment c200 through the clone).
+/// Collector k carries the marker counter c<100+k> = k+1.  The pipeline is the sleeping map
+/// (pipe 5).  out = [ok, per step [observation, elapsed() ns of every collector], per collector
+/// [snapshot, to_json execution_time_ms, to_json keys]]; observation = 0 (set) | [tag, window ns]
+/// (run; tag 0 ok 1 err 2 panic) | marker (take, get)
+fn run_attach(input: &Value) -> Value {
+    set_yield_hook(None);
+    let steps = input[0].as_array().unwrap();
+    let mode = input[1].as_i64().unwrap();
+    let data: Vec<i64> = input[2].as_array().unwrap().iter().map(|x| x.as_i64().unwrap()).collect();
+    let parts = input[3].as_u64().unwrap() as usize;
+    let cfg = input[4].as_i64().unwrap();
+    let n = steps.iter().filter(|s| s[0] == 0).map(|s| s[1].as_i64().unwrap() + 1).max().unwrap_or(0).max(1);
+    std::fs::create_dir_all(SCRATCH).unwrap();
+    let d = tempfile::Builder::new().prefix("ckpt-s-").tempdir_in(SCRATCH).unwrap();
+    let rc = RunCfg::new(cfg, d.path().join("ck"));
+    let colls: Vec<MetricsCollector> = (0..n)
+        .map(|k| {
+            let mut m = MetricsCollector::new();
+            m.register(Box::new(CounterMetric::with_value(name_str(MARK + k), (k + 1) as u64)));
+            m
+        })
+        .collect();
+    let p = Pipeline::default();
+    let c = from_vec(&p, data).map(|x: &i64| {
+        std::thread::sleep(Duration::from_millis((*x).clamp(0, 3000) as u64));
+        x + 1
+    });
+    let mut obs = Vec::new();
+    for st in steps {
+        let o = match st[0].as_i64().unwrap() {
+            0 => {
+                p.set_metrics(colls[st[1].as_u64().unwrap() as usize].clone());
+                json!(0)
+            }
+            1 => {
+                let r = collect_with(&p, &c, mode, parts, st[1].as_i64().unwrap(), &rc, &|x: i64| vec![x], false);
+                let tag = match r[0].as_str() {
+                    Some("ok") => 0,
+                    Some("err") => 1,
+                    _ => 2,
+                };
+                json!([tag, rc.hi.borrow().last().copied().unwrap()])
+            }
+            2 => json!(marker_of(p.take_metrics().as_ref(), n)),
+            _ => {
+                let g = p.get_metrics();
+                if let Some(g) = &g {
+                    g.increment_counter(&name_str(GETS), 1);
+                }
+                json!(marker_of(g.as_ref(), n))
+            }
+        };
+        let els: Vec<Value> = colls.iter().map(|m| json!(m.elapsed().map(ns))).collect();
+        obs.push(json!([o, els]));
+    }
+    let finals: Vec<Value> = colls
+        .iter()
+        .map(|m| {
+            let j = m.to_json();
+            let t = if m.elapsed().is_some() { json!(time_entry(&j)) } else { Value::Null };
+            json!([canon_snapshot(&m.snapshot()), t, canon_keys(&j)])
+        })
+        .collect();
+    json!(["ok", obs, finals])
 }
 
 // ------------------------------------------------------------------ run
@@ -1039,6 +1263,8 @@ fn run(kind: &str, input: &Value) -> Value {
         "stress" => run_stress(input),
         "transparent" => run_transparent(input),
         "export" => run_export(input),
+        "busy" => run_busy(input),
+        "attach" => run_attach(input),
         _ => json!(["bad-kind"]),
     }
 }
@@ -1349,6 +1575,12 @@ fn generate(seed: u64, tier: Tier, em: &mut Emitter) {
         (0, vec![300], 1, vec![0], 0),
         (1, vec![400, 400], 2, vec![0], 0),
         (0, vec![1100], 1, vec![0], 2),
+        // a collector reused by several runs: the time reported afterwards is the LAST run's
+        (0, vec![60], 1, vec![0, 0], 0),
+        (1, vec![40, 20], 2, vec![0, 0, 0], 2),
+        (0, vec![50], 1, vec![0, 1], 3),
+        (0, vec![50], 1, vec![1, 0], 0),
+        (1, vec![50], 1, vec![0, 2, 0], 9),
     ];
     if thorough {
         sleepy.extend([
@@ -1397,6 +1629,77 @@ fn generate(seed: u64, tier: Tier, em: &mut Emitter) {
             }
         }
     }
+    // 8. a long critical section (to_json / snapshot inside a slow Metric::value) on one thread
+    //    while another thread writes: no update is dropped, the writer waits
+    let busy_ms = if thorough { 300 } else { 120 };
+    let scripts: Vec<Vec<[i64; 3]>> = vec![
+        vec![[1, 0, 42]],
+        vec![[0, 0, 5]],
+        vec![[1, 1, 9]],
+        vec![[0, 1, 3], [0, 1, 4]],
+        vec![[1, 0, 7], [0, 0, 2], [0, 1, 1]],
+        vec![[2, 0, 11], [0, 0, 1]],
+        vec![[0, 0, 1], [1, 0, 100], [0, 0, 1]],
+        vec![[3, 2, 4], [1, 2, 6]],
+    ];
+    for (i, ops) in scripts.iter().enumerate() {
+        for driver in 0..2 {
+            if !thorough && (i + driver) % 2 == 1 && i >= 2 {
+                continue;
+            }
+            let ops: Vec<Value> = ops.iter().map(|o| json!(o)).collect();
+            em.case("busy", json!([driver, [[0, 0, 10], [3, 1, 2]], ops, busy_ms]), true, &["busy"]);
+        }
+    }
+
+    // 9. the pipeline's metrics slot: set_metrics replaces, take_metrics empties, get_metrics
+    //    clones; a run stamps the attached collector only
+    let (s0, s1, s2) = (json!([0, 0]), json!([0, 1]), json!([0, 2]));
+    let (r, re, rp, t, g) = (json!([1, 0]), json!([1, 1]), json!([1, 2]), json!([2]), json!([3]));
+    let slot_scripts: Vec<Vec<&Value>> = vec![
+        vec![&s0, &r, &s1, &r, &g, &t],
+        vec![&s0, &s1, &r, &t],
+        vec![&s0, &r, &t, &s1, &r, &t],
+        vec![&s0, &g, &g, &r, &g, &t],
+        vec![&s0, &r, &s1, &g, &t, &t],
+        vec![&r, &s0, &r, &t, &r, &g],
+        vec![&s0, &r, &s1, &r, &s0, &r, &t],
+        vec![&s0, &s0, &r, &t],
+        vec![&s0, &rp, &s1, &re, &t],
+        vec![&s0, &r, &s1, &rp, &g, &t],
+        vec![&t, &g, &s0, &t, &g],
+        vec![&s0, &r, &s1, &t, &r, &g],
+        vec![&s0, &s1, &s2, &r, &t, &s1, &r, &g],
+        vec![&s1, &r, &s0, &re, &s2, &r, &t, &t],
+        vec![&s0, &s1, &t, &r],
+        vec![&s0, &r, &s1, &r],
+    ];
+    for (i, sc) in slot_scripts.iter().enumerate() {
+        for mode in 0..2 {
+            let cfg = if thorough { [0, 2, 3, 9][(i + mode) % 4] } else { [0, 0, 2][(i + mode) % 3] };
+            let data = if mode == 0 { json!([2, 1]) } else { json!([3]) };
+            em.case("attach", json!([sc, mode, data, 1 + mode, cfg]), true, &["attach", "script"]);
+        }
+    }
+    let n_slot = if thorough { 600 } else { 60 };
+    for _ in 0..n_slot {
+        let steps: Vec<Value> = (0..rng.range(2, 9))
+            .map(|_| match rng.range(0, 9) {
+                0..=2 => json!([0, rng.range(0, 2)]),
+                3..=5 => json!([1, if rng.chance(3, 4) { 0 } else { rng.range(1, 2) }]),
+                6 | 7 => json!([2]),
+                _ => json!([3]),
+            })
+            .collect();
+        let mode = rng.range(0, 1);
+        em.case(
+            "attach",
+            json!([steps, mode, [rng.range(0, 3)], rng.range(1, 2), *rng.pick(&[0, 0, 1, 2, 3, 5, 9])]),
+            true,
+            &["attach", "random"],
+        );
+    }
+
     // the three views of one run's duration, below and beyond one second
     let mut timed: Vec<i64> = vec![2, 6, 251, 1001, 1101];
     if thorough {
